@@ -8,7 +8,7 @@ ROOT="$(cd "$(dirname "$0")/.." && pwd)"
 export VERIF_ROOT="$ROOT" CARGO_NET_OFFLINE=true
 case "$ID" in
   C01) T="c01_roundtrip";; C03) T="c03_interop";; C07) T="c07_skip";; C09) T="c09_total c09_raw";;
-  C10) T="c10_pb_raw";; C11) T="c11_unchecked";; C12) T="c12_async";; C15) T="c15_print_parse";; C16) T="c16_parse";;
+  C05) T="c05_pb_dyn";; C18) T="c18_pb_merge";; C10) T="c10_pb_raw";; C11) T="c11_unchecked";; C12) T="c12_async";; C15) T="c15_print_parse";; C16) T="c16_parse";;
   *) echo "no fuzz target for $ID"; exit 0;;
 esac
 cd "$ROOT/harness" || exit 2   # cargo-fuzz wants to start inside a cargo project; the fuzz crate is named explicitly
